@@ -21,7 +21,7 @@ from . import pool, util
 from .proc import HarnessError
 
 KNOWN_PATH = os.path.join(VERIF, 'known_findings.json')
-REPLAY_DIR = os.path.join(VERIF, 'replays')
+REPLAY_DIR = os.environ.get('VERIF_REPLAY_DIR') or os.path.join(VERIF, 'replays')
 MAX_REPORTED = 8
 SHRINK_BUDGET = 60
 
@@ -227,8 +227,9 @@ def run_check(mod, tier, seed, fresh_confirm=True):
                                  'simulated process executions, file-system effects, pinned calendar dates')
         ev = {'property_id': mod.ID, 'tier': tier, 'seed': seed, 'level': mod.LEVEL, 'coverage': cov,
               'assumptions': mod.ASSUMPTIONS, 'wall_s': round(wall, 2), 'violations': len(new)}
-        os.makedirs(os.path.join(VERIF, 'evidence'), exist_ok=True)
-        with open(os.path.join(VERIF, 'evidence', mod.ID + '.json'), 'w', encoding='utf-8') as f:
+        evdir = os.environ.get('VERIF_EVIDENCE_DIR') or os.path.join(VERIF, 'evidence')
+        os.makedirs(evdir, exist_ok=True)
+        with open(os.path.join(evdir, mod.ID + '.json'), 'w', encoding='utf-8') as f:
             json.dump(ev, f, indent=1, sort_keys=True, ensure_ascii=False)
         print('%s %s: runs=%d evaluations=%s distinct_nontrivial=%s violations=%d known=%d wall=%.1fs digest=%s' % (
             mod.ID, tier, n, cov.get('evaluations'), cov.get('distinct_nontrivial'), len(new), len(known_hit),
